@@ -17,11 +17,21 @@ def dirs_of(files) -> list:
     return sorted(ds)
 
 
+def plain_dirs(files) -> set:
+    """Directories without an __init__.py: those that hold only a test__init__ module (small trees)."""
+    by_dir = {}
+    for f in files:
+        by_dir.setdefault(tuple(f["path"]), set()).add(f["stem"])
+    return {d for d, stems in by_dir.items() if stems == {"test__init__"} and not any(len(o) > len(d) and o[:len(d)] == d for o in by_dir)}
+
+
 def tree_files(files, root: str) -> dict:
     """Every directory is a package whose __init__ declares something; the root module keepmod imports every package, so that the
     type checker loads all of them (a file that is imported is still a file located in its directory)."""
     out = {"__init__.py": ""}
     for d in dirs_of(files):
+        if d in plain_dirs(files):
+            continue
         tag = "_".join(d)
         out["/".join(d) + "/__init__.py"] = f"def init_fn_{tag}() -> int:\n    ...\n"
     for f in files:
@@ -29,7 +39,7 @@ def tree_files(files, root: str) -> dict:
         tag = "_".join([*p, f["stem"]]).replace(".", "_")
         text = f"def fn_{tag}(a: int) -> int:\n    ...\n\n\nclass Cl_{tag}:\n    pass\n"
         if not p and f["stem"] == "keepmod":
-            text = "".join(f"import {'.'.join([root, *d])}\n" for d in dirs_of(files)) + "\n\n" + text
+            text = "".join(f"import {'.'.join([root, *d])}\n" for d in dirs_of(files) if d not in plain_dirs(files)) + "\n\n" + text
         out["/".join([*p, f["stem"] + ".py"])] = text
     return out
 
@@ -81,6 +91,8 @@ def main(v: Verdict) -> None:
             obs.append({"id": f"tree{k}:{mid}", "obs": o})
         # the __init__ files of the directories: they never get a stub of their own, only the API JSON can show them
         for dpath in dirs_of(t["files"]):
+            if dpath in plain_dirs(t["files"]):
+                continue
             mid = "/".join([root, *dpath])
             decl = f"{mid}/init_fn_{'_'.join(dpath)}"
             o = {"path": list(dpath), "stem": "__init__"}
